@@ -18,9 +18,10 @@ type vFrameRec struct {
 	w      [vMaxFrames]int
 	nl     [vMaxFrames]int
 	cuu    [vMaxFrames]int
-	closed bool // set by the harness when Wait has returned
-	late   int  // writes after Wait returned
-	fail   int  // fail the k-th write (1-based), 0 = never
+	closed bool          // set by the harness when Wait has returned
+	late   int           // writes after Wait returned
+	fail   int           // fail the k-th write (1-based), 0 = never
+	tick   chan struct{} // when set: one token per write (never blocks), see vEnv.cycle
 }
 
 func (r *vFrameRec) Write(p []byte) (int, error) {
@@ -34,6 +35,12 @@ func (r *vFrameRec) Write(p []byte) (int, error) {
 		r.cuu[r.n] = vTextCUU(s)
 	}
 	r.n++
+	if r.tick != nil {
+		select {
+		case r.tick <- struct{}{}:
+		default:
+		}
+	}
 	if r.fail == r.n {
 		return 0, vErrIO
 	}
@@ -41,14 +48,14 @@ func (r *vFrameRec) Write(p []byte) (int, error) {
 }
 
 type vMark struct {
-	id       int
-	width    int
-	fills    int
-	lastCur  int64
-	lastDone bool
-	lastAb   bool
-	failAt   int // return an error from the k-th Fill (1-based), 0 = never
-	rec      *vFrameRec
+	id           int
+	width        int
+	fills        int
+	lastCur      int64
+	lastDone     bool
+	lastAb       bool
+	failAt       int // return an error from the k-th Fill (1-based), 0 = never
+	rec          *vFrameRec
 	framesAtFail int // frames written when the failing Fill was called (-1: has not failed)
 }
 
@@ -107,6 +114,14 @@ func vNewContainer(mode vMode, q int, extra ...ContainerOption) *vEnv {
 	e.cancel = cancel
 	e.p = NewWithContext(ctx, opts...)
 	return e
+}
+
+// cycle (manual refresh only): request one render cycle and wait until its frame has been written.
+// Only for points where the cycle is certain to write a frame; call vTicks first.
+func (e *vEnv) vTicks() { e.rec.tick = make(chan struct{}, 64) }
+func (e *vEnv) cycle() {
+	e.refresh <- nil
+	<-e.rec.tick
 }
 
 // vFinish: Wait, then the checks every scenario shares (late calls, notifier, output after Wait).
@@ -508,7 +523,7 @@ func vsS8() {
 	b0, _ := e.p.Add(2, m0, BarFillerTrim())
 	accepted := 0
 	wdone := make(chan struct{})
-	go func() {
+	writer := func() {
 		for i := 0; i < 2; i++ {
 			n, err := e.p.Write([]byte(vMakeText(100, 1)))
 			if err == nil && n == 101 {
@@ -518,13 +533,24 @@ func vsS8() {
 			}
 		}
 		close(wdone)
-	}()
-	if vParam("completeFirst") != 0 {
+	}
+	switch vParam("completeFirst") {
+	case 0:
+		go writer()
+		<-wdone
+		b0.IncrBy(2)
+	case 1:
+		go writer()
 		b0.IncrBy(2)
 		<-wdone
-	} else {
-		<-wdone
+	default:
+		// the lines are written after the bar has finished for good (no frame is owed to any bar any more)
 		b0.IncrBy(2)
+		if mode != vManual {
+			b0.Wait()
+		}
+		go writer()
+		<-wdone
 	}
 	if mode == vManual {
 		e.refresh <- nil
@@ -615,18 +641,19 @@ func vsS11() {
 func vsS12() {
 	mode := vModeParam()
 	e := vNewContainer(mode, -1)
+	e.vTicks()
 	cSync := vParam("newBarSync") != 0
 	dA, dB, dC := vNewSync(vMakeText(5, 0)), vNewSync(vMakeText(2, 0)), vNewSync(vMakeText(3, 0))
 	mA, mB, mC := vNewMark(2), vNewMark(3), vNewMark(4)
 	a, _ := e.p.Add(1, mA, BarFillerTrim(), PrependDecorators(dA), BarRemoveOnComplete())
 	b, _ := e.p.Add(2, mB, BarFillerTrim(), PrependDecorators(dB))
 	if mode == vManual {
-		e.refresh <- nil
+		e.cycle() // both bars drawn side by side
 	}
 	a.IncrBy(1)
 	if mode == vManual {
-		e.refresh <- nil
-		e.refresh <- nil
+		e.cycle() // A drawn in its completed state
+		e.cycle() // A leaves the container
 	} else {
 		a.Wait()
 	}
@@ -636,14 +663,14 @@ func vsS12() {
 	}
 	c, _ := e.p.Add(2, mC, optsC...)
 	if mode == vManual {
-		e.refresh <- nil
-		e.refresh <- nil
+		e.cycle()
+		e.cycle()
 	}
 	b.IncrBy(2)
 	c.IncrBy(2)
 	if mode == vManual {
-		e.refresh <- nil
-		e.refresh <- nil
+		e.cycle()
+		e.cycle()
 	}
 	e.vFinish("S12", a, b, c)
 	if mode != vPlain {
